@@ -1,9 +1,9 @@
 """C07 — the OpenAPI document tells the truth about requests and responses."""
 import re
 
-from .lib import (PLUMBING, callee_allow, callers, closure_args_of_call, lit_strs, operand_local)
-from .lib_c12 import (STATUS_PATH, agg_field_op, coded_impls, const_val, eval_bool_paths, from_impls, norm_ty, op_const_path, only_plumbing,
-                      ret_ok_sites, self_of_call)
+from .lib import (ITER_PLUMBING, PLUMBING, callee_allow, callers, closure_args_of_call, element_sources, lit_strs, operand_local)
+from .lib_c12 import (STATUS_PATH, Origin, agg_field_op, coded_impls, const_bool_operand, const_val, eval_bool_paths, from_impls, norm_ty, op_const_path,
+                      only_plumbing, params_of_type, ret_ok_sites, self_of_call)
 
 LEVEL = "other"
 TECHNIQUE = ("static analysis: sibling agreement between the document side (metadata / response_metadata / content_metadata / gen_openapi) and the runtime side "
@@ -546,12 +546,14 @@ def r4_response(ctx):
     # document status key
     go = ctx.need_fn(ds, R, r"^api_description::ApiDescription::<Context>::gen_openapi$")
     codes = [(bb, st_) for bb, i, st_ in go.aggregates(r"^openapiv3::StatusCode$", "Code") if bb in go.reachable(0)]
-    okc = False
+    okc, why = False, ""
     for bb, st_ in codes:
-        sl = go.slice(st_["rv"]["ops"][0])
-        okc = sl.reads_field("success") and sl.reads_field("response") and \
-            only_plumbing(sl, [r"http::StatusCode::as_u16$", r"HttpRouter::<Context>::endpoints$", r"iter::IntoIterator::into_iter$", r"iter::Iterator::next$"])
-    ctx.check(R, "gen_openapi:status-key", len(codes) == 1 and okc, "responses key = StatusCode::Code(endpoint.response.success.as_u16()): %s" % okc, go)
+        # the key is computed from the `response.success` of the endpoint being documented, an element of router.endpoints(..)
+        # (whether the loop filters the iterator first or skips inside the body does not matter)
+        sl = go.slice(st_["rv"]["ops"][0], stop_at_calls=r"iter::Iterator::next$")
+        e_ok, why, _ = _element_of(ds, go, st_["rv"]["ops"][0], ("call", r"HttpRouter::<Context>::endpoints$"))
+        okc = sl.reads_field("success") and sl.reads_field("response") and only_plumbing(sl, [r"http::StatusCode::as_u16$", r"iter::Iterator::next$"]) and e_ok
+    ctx.check(R, "gen_openapi:status-key", len(codes) == 1 and okc, "responses key = StatusCode::Code(endpoint.response.success.as_u16()): %s (%s)" % (okc, why), go)
     # media type keys
     kinds = {}
     for g in [go] + ds.descendants(go):
@@ -644,11 +646,59 @@ def r5_error_schema(ctx):
 
 
 # ----------------------------------------------------------------------------- R6
+SET_CONTAINS = r"BTreeSet::<T, A>::contains$|BTreeSet.*::contains$|IndexSet.*::contains$|HashSet.*::contains$"
+# adaptors / conversions that hand the elements of a collection on unchanged
+ELEMENT_PRESERVING = ITER_PLUMBING + [r"iter::Iterator::(filter|rev|skip_while|take_while|chain|inspect)$", r"(BTreeMap|IndexMap|HashMap)::<.*>::iter$",
+                                      r"slice::<impl \[T\]>::iter$", r"vec::Vec::<T, A>::iter$", r"vec::Vec::<T, A>::into_iter$"]
+
+
+def _element_of(ds, g, op, producer, allow=()):
+    """Is the operand (a field of) an *element* of the collection produced by / read from `producer`?
+    Works alike for `for x in coll {..}` (Iterator::next in the slice) and `coll.iter().map(|x| ..)` (the
+    closure's item parameter).  Returns (ok, detail, [(ctx fn, iterator Origin)]).
+    producer: ("call", regex) — the iterated collection is the result of that call;
+              ("field", name) — the iterated collection is field `name` of some object."""
+    srcs = element_sources(ds, g, op)
+    if not srcs:
+        return False, "the value is not an element of an iterated collection", []
+    its = []
+    for h, it_op, how in srcs:
+        # the collection may itself belong to an element of an outer iteration (endpoint.parameters inside the loop over endpoints):
+        # the slice stops at the outer Iterator::next and at the producing call
+        stop = r"iter::Iterator::next$" + ("|" + producer[1] if producer[0] == "call" else "")
+        o = Origin(ds, h, it_op, stop_at_calls=stop)
+        its.append((h, o))
+        if producer[0] == "call":
+            good = o.has_call(producer[1])
+            extra = [producer[1]]
+        else:
+            good = o.reads_field(producer[1])
+            extra = []
+        bad = o.bad_callees(ELEMENT_PRESERVING + extra + list(allow))
+        if not good or bad or o.unresolved:
+            return False, "iterated collection (%s) does not derive from %s only: other callees %s" % (how, producer[1], sorted(set(bad))), its
+    return True, "element of %s (%s)" % (producer[1], ", ".join(sorted(set(x[2] for x in srcs)))), its
+
+
+def _copied_member_field(ds, h, op, field):
+    """The operand is a plain copy of field `field` of a struct member: nothing but moves on the way from the
+    element (slice stopped at Iterator::next so that the loop plumbing is not part of it)."""
+    sl = h.slice(op, stop_at_calls=r"iter::Iterator::next$")
+    bad = callee_allow(sl, PLUMBING + [r"iter::Iterator::next$"])
+    computed = [a for a in sl.atoms if a[0] in ("lit", "unop", "binop", "const")]
+    return sl.reads_field(field) and not bad and not computed
+
+
 def r6_required(ctx):
-    R = ctx.rule("C07.R6", "StructMember.required = caller's `required` AND object.required.contains(name), decided over all four truth assignments; recursion passes `required` or "
-                 "false; the flag reaches ParameterData.required and Header.required unmodified", floor=14)
+    R = ctx.rule("C07.R6", "StructMember.required = caller's `required` AND object.required.contains(name), decided over all four truth assignments on every path to the "
+                 "construction; recursion passes `required` or false; the flag reaches ParameterData.required and Header.required unmodified", floor=14)
     ds = ctx.ds
     imp = ctx.need_fn(ds, R, r"^schema_util::schema2struct_impl$")
+    bools = params_of_type(imp, "bool")
+    if len(bools) != 1:
+        ctx.lost(R, "the single bool parameter (`required`) of schema2struct_impl (found %d)" % len(bools))
+        return
+    rparam = bools[0]
     sites = []
     for g in [imp] + ds.descendants(imp):
         for b, i, st in g.aggregates(r"^schema_util::StructMember$"):
@@ -660,18 +710,23 @@ def r6_required(ctx):
     g, b, st = sites[0]
     rop = agg_field_op(st, "required")
     nop = agg_field_op(st, "name")
-    # atoms
-    req_places = [p for p in g.names.get("required", [])]
-    contains = g.live_calls(r"BTreeSet::<T, A>::contains$|BTreeSet.*::contains$|IndexSet.*::contains$|HashSet.*::contains$")
-    if g is imp:
-        req_places = [{"l": l, "p": []} for l in imp.local_by_name("required")]
+    contains = g.live_calls(SET_CONTAINS)
+    n_req, memo = [0], {}
 
+    # atom R: a read of schema2struct_impl's bool parameter — directly, or (inside a closure) through the capture
     def is_req(kind, node):
         if kind != "assign" or node["rv"]["rv"] != "use":
             return False
         o = node["rv"]["op"]
-        return o.get("k") in ("copy", "move") and any(o["pl"] == p for p in req_places)
+        if o.get("k") not in ("copy", "move") or g.local_ty(node["pl"]["l"]) != "bool":
+            return False
+        if id(node) not in memo:
+            memo[id(node)] = Origin(ds, g, o).is_plain_copy_of_param(imp, rparam)
+            if memo[id(node)]:
+                n_req[0] += 1
+        return memo[id(node)]
 
+    # atom C: the result of the set-membership call
     def is_contains(kind, node):
         return kind == "call" and any(node is t for bb, t in contains)
     try:
@@ -681,94 +736,103 @@ def r6_required(ctx):
                   "StructMember.required as a function of (contains, caller's required): %s (want AND)" % {("C=%d,R=%d" % k): int(v) for k, v in sorted(table.items())}, (g, b))
     except ValueError as e:
         ctx.check(R, "required-is-conjunction", False, "could not evaluate the `required` expression exactly: %s" % e, (g, b))
-    # contains(receiver = object.required, key = the member's own name)
-    okc = False
+    ctx.check(R, "caller-flag-is-the-parameter", n_req[0] > 0,
+              "the flag combined with contains() is schema2struct_impl's own bool parameter (read directly or through the closure capture): %d read(s) on the evaluated paths" % n_req[0], g)
+    # contains(receiver = X.required, key = k) where (k, _) is an element of X.properties and StructMember.name = k
+    okc, why = False, "no contains() call"
     for bb, t in contains:
-        rs, ks, ns = g.slice(t["args"][0]), g.slice(t["args"][1]), g.slice(nop)
-        rcv = rs.reads_field("required")
-        if g is not imp:
-            # captured by reference: check what the parent captured
-            ups = [p for p in rs.param_fields() if p[0] == 1]
-            idx = [int(e[1:].split(":")[0]) for p in ups for e in p[1] if e.startswith("f")][:1]
-            for pbb, pt in imp.live_calls():
-                for h, node in closure_args_of_call(imp, pt):
-                    if h is g and idx and idx[0] < len(node["rv"]["ops"]):
-                        ps = imp.slice(node["rv"]["ops"][idx[0]])
-                        rcv = ps.reads_field("required") and only_plumbing(ps)
-                        # the properties iterated are those of the same object
-                        its = imp.slice(pt["args"][0])
-                        rcv = rcv and its.reads_field("properties") and bool(its.locals() & ps.locals())
-        same_key = ks.param_fields() == ns.param_fields() and bool(ks.params()) and only_plumbing(ks) and only_plumbing(ns)
-        okc = rcv and same_key
+        rcv = Origin(ds, g, t["args"][0])
+        rcv_ok = rcv.reads_field("required") and not rcv.bad_callees() and not rcv.unresolved
+        k_ok, k_why, its = _element_of(ds, g, t["args"][1], ("field", "properties"))
+        n_ok, n_why, nits = _element_of(ds, g, nop, ("field", "properties"))
+        # the same object: `.required` and `.properties` are projected from the same place
+        same_obj = any(rcv.field_bases("required") & o.field_bases("properties") for h, o in its)
+        # the same element: key and name come from the same item (same Iterator::next call / same closure parameter)
+        ks = g.slice(t["args"][1], stop_at_calls=r"iter::Iterator::next$")
+        ns = g.slice(nop, stop_at_calls=r"iter::Iterator::next$")
+        same_elem = (sorted(bb2 for c, bb2, _ in ks.calls(r"iter::Iterator::next$")) == sorted(bb2 for c, bb2, _ in ns.calls(r"iter::Iterator::next$"))) and \
+            ks.param_fields() == ns.param_fields() and not callee_allow(ks, PLUMBING + [r"iter::Iterator::next$"]) and not callee_allow(ns, PLUMBING + [r"iter::Iterator::next$"])
+        okc = rcv_ok and k_ok and n_ok and same_obj and same_elem
+        why = "receiver reads .required=%s; key %s; name %s; same object=%s; key and name are the same element=%s" % (rcv_ok, k_why, n_why, same_obj, same_elem)
     ctx.check(R, "contains-on-own-name-in-schema-required", len(contains) == 1 and okc,
-              "contains(): receiver is the object's `required` set of the properties being listed, key is the member's own name: %s" % okc, (g, b))
-    # the caller's `required` seen by the closure is schema2struct_impl's parameter
-    rparam = imp.local_by_name("required")
-    if g is not imp:
-        okp = False
-        for pl in req_places:
-            fs = [e["f"] for e in pl["p"] if isinstance(e, dict) and "f" in e][:1]
-            for pbb, pt in imp.live_calls():
-                for h, node in closure_args_of_call(imp, pt):
-                    if h is g and fs and fs[0] < len(node["rv"]["ops"]):
-                        ps = imp.slice(node["rv"]["ops"][fs[0]])
-                        okp = ps.params() == rparam and not ps.callees
-        ctx.check(R, "closure-required-is-parameter", okp, "the closure's `required` is schema2struct_impl's parameter: %s" % okp, g)
-    # recursion
-    loops = imp.loop_blocks()
+              "contains(): receiver is the `required` set of the object whose properties are being listed, key is the member's own name: %s" % why, (g, b))
+    # recursion: a call on one of several alternatives (its schema argument is an element of a list / it sits in a loop) must pass false;
+    # a call on the single wrapped schema passes the caller's flag or false
     nrec = {"alternatives": 0, "single": 0}
-    for bb, t in imp.live_calls(r"^schema_util::schema2struct_impl$"):
-        a = t["args"][2]
-        in_loop = bb in loops   # recursion over a list of alternatives (any_of): a member of one alternative is never required
-        role = "alternatives" if in_loop else "single"
-        nrec[role] += 1
-        if a.get("k") == "const":
-            isfalse = bool(a.get("val")) and a["val"].get("int") == 0
-            ok = isfalse
-            d = "constant %s" % ("false" if isfalse else "true")
-        else:
-            sl = imp.slice(a)
-            ok = (not in_loop) and sl.params() == rparam and not sl.callees and not [x for x in sl.atoms if x[0] in ("lit", "unop", "binop")]
-            d = "derives from params %s" % sl.params()
-        ctx.check(R, "recursion:%s:%d" % (role, nrec[role]), ok,
-                  "recursive call (%s) passes `required` = %s (want: %s)" % (role, d, "false" if in_loop else "the caller's flag or false"), (imp, bb))
+    for h in [imp] + ds.descendants(imp):
+        loops = h.loop_blocks()
+        for bb, t in h.live_calls(r"^schema_util::schema2struct_impl$"):
+            a = t["args"][2]
+            many = bb in loops or bool(element_sources(ds, h, t["args"][0]))
+            role = "alternatives" if many else "single"
+            nrec[role] += 1
+            cv = const_bool_operand(h, a)
+            if cv is not None:
+                ok = cv is False
+                d = "constant %s" % ("true" if cv else "false")
+            else:
+                o = Origin(ds, h, a)
+                ok = (not many) and o.is_plain_copy_of_param(imp, rparam)
+                d = "derives from parameters %s%s" % (o.params_of(imp), (" via " + ",".join(o.callee_names() + o.computed())) if (o.callees() or o.computed()) else "")
+            ctx.check(R, "recursion:%s:%d" % (role, nrec[role]), ok,
+                      "recursive call (%s) passes `required` = %s (want: %s)" % (role, d, "false" if many else "the caller's flag or false"), (h, bb))
     s2 = ctx.need_fn(ds, R, r"^schema_util::schema2struct$")
-    for bb, t in s2.live_calls(r"^schema_util::schema2struct_impl$"):
-        sl = s2.slice(t["args"][2])
-        ctx.check(R, "schema2struct-forwards-required", sl.params() == s2.local_by_name("required") and not sl.callees, "schema2struct passes its own `required`", (s2, bb))
+    s2b = params_of_type(s2, "bool")
+    n = 0
+    for h in [s2] + ds.descendants(s2):
+        for bb, t in h.live_calls(r"^schema_util::schema2struct_impl$"):
+            n += 1
+            o = Origin(ds, h, t["args"][2])
+            ctx.check(R, "schema2struct-forwards-required", len(s2b) == 1 and o.is_plain_copy_of_param(s2, s2b[0]), "schema2struct passes its own `required`", (h, bb))
+    if not n:
+        ctx.lost(R, "schema2struct_impl call in schema2struct")
     # consumers
     gm = ctx.need_fn(ds, R, r"^extractor::metadata::get_metadata$")
-    for f, label in ((gm, "get_metadata"), (ctx.need_fn(ds, R, r"^<handler::HttpResponseHeaders<T, H> as handler::HttpResponse>::response_metadata$"), "headers")):
-        cs = f.live_calls(r"^schema_util::schema2struct$")
-        okt = len(cs) == 1 and cs[0][1]["args"][4].get("k") == "const" and (cs[0][1]["args"][4].get("val") or {}).get("int") == 1
+    hm = ctx.need_fn(ds, R, r"^<handler::HttpResponseHeaders<T, H> as handler::HttpResponse>::response_metadata$")
+    for f, label in ((gm, "get_metadata"), (hm, "headers")):
+        cs = [(h, bb, t) for h in [f] + ds.descendants(f) for bb, t in h.live_calls(r"^schema_util::schema2struct$")]
+        okt = len(cs) == 1 and const_bool_operand(cs[0][0], cs[0][2]["args"][4]) is True
         ctx.check(R, "%s:top-level-required-true" % label, okt, "schema2struct(.., required = true) at the top level: %s" % okt, f)
     nn_sites = [(h, bb, t) for h in [gm] + ds.descendants(gm) for bb, t in h.live_calls(r"ApiEndpointParameter::new_named$")]
     for h, bb, t in nn_sites:
-        sl = h.slice(t["args"][3])
-        ctx.check(R, "get_metadata:required-forwarded", sl.reads_field("required") and not sl.callees and sl.params() == [2], "new_named(.., struct_member.required, ..)", (h, bb))
+        copied = _copied_member_field(ds, h, t["args"][3], "required")
+        e_ok, e_why, _ = _element_of(ds, h, t["args"][3], ("call", r"^schema_util::schema2struct$"))
+        n_ok, n_why, _ = _element_of(ds, h, t["args"][1], ("call", r"^schema_util::schema2struct$"))
+        rs = h.slice(t["args"][3], stop_at_calls=r"iter::Iterator::next$")
+        ns = h.slice(t["args"][1], stop_at_calls=r"iter::Iterator::next$")
+        same = sorted(b2 for c, b2, _ in rs.calls(r"iter::Iterator::next$")) == sorted(b2 for c, b2, _ in ns.calls(r"iter::Iterator::next$")) and rs.params() == ns.params()
+        ctx.check(R, "get_metadata:required-forwarded", copied and e_ok and n_ok and same,
+                  "new_named(.., member.name, .., member.required, ..): `required` is copied unmodified=%s from an %s; the name comes from the same member=%s" % (copied, e_why, n_ok and same), (h, bb))
     if not nn_sites:
         ctx.lost(R, "new_named call under get_metadata")
     nn = ctx.need_fn(ds, R, r"^api_description::ApiEndpointParameter::new_named$")
+    nnb = params_of_type(nn, "bool")
     for b2, i, st2 in nn.aggregates(r"^api_description::ApiEndpointParameter$"):
-        sl = nn.slice(agg_field_op(st2, "required"))
-        ctx.check(R, "new_named:stores-required", sl.params() == nn.local_by_name("required") and not sl.callees, "ApiEndpointParameter.required = the argument", (nn, b2))
+        o = Origin(ds, nn, agg_field_op(st2, "required"))
+        ctx.check(R, "new_named:stores-required", len(nnb) == 1 and o.is_plain_copy_of_param(nn, nnb[0]), "ApiEndpointParameter.required = the bool argument", (nn, b2))
     go = ctx.need_fn(ds, R, r"^api_description::ApiDescription::<Context>::gen_openapi$")
     n = 0
     for h in [go] + ds.descendants(go):
-        for adt in ("openapiv3::ParameterData", "openapiv3::Header"):
+        for adt, coll in (("openapiv3::ParameterData", "parameters"), ("openapiv3::Header", "headers")):
             for b2, i, st2 in h.aggregates("^" + re.escape(adt) + "$"):
                 n += 1
-                sl = h.slice(agg_field_op(st2, "required"))
-                ctx.check(R, "gen_openapi:%s.required" % adt.split("::")[-1], sl.reads_field("required") and not sl.callees and not [x for x in sl.atoms if x[0] in ("lit", "unop", "binop")],
-                          "%s.required copies the endpoint's flag" % adt, (h, b2))
+                rop2 = agg_field_op(st2, "required")
+                copied = _copied_member_field(ds, h, rop2, "required")
+                e_ok, e_why, _ = _element_of(ds, h, rop2, ("field", coll))
+                ctx.check(R, "gen_openapi:%s.required" % adt.split("::")[-1], copied and e_ok,
+                          "%s.required copies the flag (unmodified=%s) of an %s" % (adt, copied, e_why), (h, b2))
     if n < 2:
         ctx.lost(R, "ParameterData / Header aggregates in gen_openapi")
-    hm = ctx.need_fn(ds, R, r"^<handler::HttpResponseHeaders<T, H> as handler::HttpResponse>::response_metadata$")
-    for h in ds.descendants(hm):
+    n = 0
+    for h in [hm] + ds.descendants(hm):
         for b2, i, st2 in h.aggregates(r"^api_description::ApiEndpointHeader$"):
-            sl = h.slice(agg_field_op(st2, "required"))
-            ctx.check(R, "headers:required-forwarded", sl.reads_field("required") and not sl.callees, "ApiEndpointHeader.required = struct_member.required", (h, b2))
-
+            n += 1
+            rop2 = agg_field_op(st2, "required")
+            copied = _copied_member_field(ds, h, rop2, "required")
+            e_ok, e_why, _ = _element_of(ds, h, rop2, ("call", r"^schema_util::schema2struct$"))
+            ctx.check(R, "headers:required-forwarded", copied and e_ok, "ApiEndpointHeader.required = member.required (unmodified=%s) of an %s" % (copied, e_why), (h, b2))
+    if not n:
+        ctx.lost(R, "ApiEndpointHeader construction under HttpResponseHeaders::response_metadata")
 
 
 def r7_framework_errors_use_endpoint_error_type(ctx):
